@@ -422,12 +422,57 @@ def oracle(ctx, deep):
                 if not r["ok"]:
                     fails.append({"key": f"C20:vector-coefficient:{cname}", "what": f"{cname} in D={D} given a coefficient vector of length {n}: {r['outcome']}, expected {r['expected']}",
                                   "probe": "vector_coefficient", "args": {"cname": cname, "D": D, "n": n}, "observed": r})
+    for D in (1, 2, 3):
+        for order in (0, 1, 2, 3, 4):
+            for kind in ("broadcast", "per_channel", "three_channels", "extra_axis", "missing_axis"):
+                r = probe_operator_shape(D, order, kind)
+                ctx.count(("oracle_operator_shape", D, order, kind))
+                if not r["ok"]:
+                    fails.append({"key": f"C20:operator-shape:{kind}", "what": f"a stepper (D={D}, order={order}, 2 channels) whose linear operator has the '{kind}' shape: {r['outcome']}, expected {r['expected']}",
+                                  "probe": "operator_shape", "args": {"D": D, "order": order, "kind": kind}, "observed": r})
     seen, out = set(), []
     for f in fails:
         if f["key"] not in seen:
             seen.add(f["key"])
             out.append(f)
     return out
+
+
+def probe_operator_shape(D, order, kind):
+    """the linear-operator shape check at construction (`_base_stepper.py`): a user stepper whose `_build_linear_operator`
+    returns the wrong number of channels / an extra axis is refused for EVERY order 0..4; the right shapes ((1,)+modes and
+    (C,)+modes) are accepted and the step preserves the state shape"""
+    import equinox as eqx   # noqa: F401
+    import jax.numpy as jnp
+    ex = _ex()
+    from exponax.nonlin_fun import ZeroNonlinearFun
+    from exponax._spectral import build_laplace_operator
+    N = 6
+
+    class Custom(ex.BaseStepper):
+        kind: str
+
+        def __init__(self, kind):
+            self.kind = kind
+            super().__init__(num_spatial_dims=D, domain_extent=1.0, num_points=N, dt=0.1, num_channels=2, order=order)
+
+        def _build_linear_operator(self, derivative_operator):
+            base = 0.01 * build_laplace_operator(derivative_operator, order=2)     # (1,) + modes
+            return {"broadcast": base, "per_channel": jnp.concatenate([base, 2 * base]), "three_channels": jnp.concatenate([base, base, base]),
+                    "extra_axis": base[None], "missing_axis": base[0]}[self.kind]
+
+        def _build_nonlinear_fun(self, derivative_operator):
+            return ZeroNonlinearFun(D, N)
+    expected = "accepted" if kind in ("broadcast", "per_channel") else "ValueError"
+    try:
+        st = Custom(kind)
+        out = st(jnp.ones((2,) + (N,) * D))
+        outcome = "accepted" if out.shape == (2,) + (N,) * D else f"accepted with output shape {tuple(out.shape)}"
+    except ValueError:
+        outcome = "ValueError"
+    except Exception as e:   # noqa: BLE001
+        outcome = type(e).__name__
+    return {"ok": outcome == expected, "outcome": outcome, "expected": expected}
 
 
 VECTOR_COEFFS = {"Advection.velocity": ("Advection", "velocity"), "AdvectionDiffusion.velocity": ("AdvectionDiffusion", "velocity"),
@@ -452,4 +497,5 @@ def probe_vector_coefficient(cname, D, n):
 
 
 def replay(probe, args):
-    return {"shape": probe_shape, "ic_options": probe_ic_options, "vector_coefficient": probe_vector_coefficient}.get(probe, probe_shape)(**args)
+    return {"shape": probe_shape, "ic_options": probe_ic_options, "vector_coefficient": probe_vector_coefficient,
+            "operator_shape": probe_operator_shape}.get(probe, probe_shape)(**args)
